@@ -21,11 +21,18 @@ Proof.
   - cbn. split; intros H; [discriminate | destruct H; discriminate].
 Qed.
 
-Lemma only_unguarded_goroutine : filter unguarded goroutines = [(24, 481, false, true)%N].
+Lemma no_unguarded_goroutine : filter unguarded goroutines = [].
 Proof. vm_compute. reflexivity. Qed.
 
+Lemma every_goroutine_guarded : forall g, In g goroutines -> unguarded g = false.
+Proof.
+  intros g Hg.
+  assert (H : forallb (fun g => negb (unguarded g)) goroutines = true) by (vm_compute; reflexivity).
+  rewrite forallb_forall in H. specialize (H _ Hg). apply negb_true_iff in H. exact H.
+Qed.
+
 (* ------------------------------------------------------------------ *)
-(* 2. ssh-simulator env / exec loop                                     *)
+(* 2. ssh-simulator env / exec loop (after 1603afd)                     *)
 
 Lemma avail_nonneg d : wf d -> 0 <= avail d.
 Proof. unfold wf, avail; lia. Qed.
@@ -33,7 +40,7 @@ Proof. unfold wf, avail; lia. Qed.
 Lemma pd_string_spec d :
   wf d ->
   let d' := fst (pd_string d) in
-  wf d' /\ (avail d < 4 -> avail d' = avail d) /\ (4 <= avail d -> avail d' <= avail d - 4).
+  wf d' /\ (avail d < 4 -> d_err d' = true) /\ (4 <= avail d -> avail d' <= avail d - 4).
 Proof.
   intros Hwf. unfold pd_string, read_prim.
   destruct (has_bytes d 4) eqn:Hb.
@@ -45,196 +52,214 @@ Proof.
       * apply has_bytes_spec in Hb2. cbn. unfold wf, avail, dlen, advance, set_err in *; cbn in *. lia.
       * cbn. unfold wf, avail, dlen, advance, set_err in *; cbn in *. lia.
   - assert (Hn : ~ (0 <= d_off d + 4 <= dlen d)) by (rewrite <- has_bytes_spec; congruence).
-    unfold copy. cbn [Z.ltb].
-    change (0 <? 0) with false. cbv iota.
+    unfold copy. change (0 <? 0) with false. cbv iota.
     destruct (has_bytes (set_err d) 0) eqn:Hb2.
-    + cbn. unfold wf, avail, dlen, advance, set_err in *; cbn in *. lia.
-    + cbn. unfold wf, avail, dlen, advance, set_err in *; cbn in *. lia.
+    + cbn. unfold wf, avail, dlen, advance, set_err in *; cbn in *.
+      split; [lia|]. split; [reflexivity | lia].
+    + cbn. unfold wf, avail, dlen, advance, set_err in *; cbn in *.
+      split; [lia|]. split; [reflexivity | lia].
 Qed.
 
-Lemma ssh_loop_stuck : forall fuel d acc,
-  wf d -> 1 <= avail d <= 3 ->
-  exists l, ssh_loop fuel d acc = OutOfFuel l /\ length l = (length acc + fuel)%nat.
-Proof.
-  induction fuel as [|f IH]; intros d acc Hwf Ha; cbn [ssh_loop].
-  - exists acc; split; [reflexivity | lia].
-  - destruct (avail d =? 0) eqn:E; [lia|].
-    pose proof (pd_string_spec d Hwf) as Hs. cbv zeta in Hs.
-    destruct (pd_string d) as [d' s] eqn:Hp. cbn [fst] in Hs.
-    destruct Hs as (Hwf' & Hlt & _).
-    destruct (IH d' (s :: acc) Hwf' ltac:(lia)) as (l & Hl & Hlen).
-    exists l; split; [exact Hl | cbn [length] in Hlen; lia].
-Qed.
-
-Lemma ssh_loop_decides : forall n d acc,
+(* the loop ends for every decoder state, within avail+1 iterations, whatever fuel beyond *)
+Lemma ssh_loop_terminates : forall n d acc,
   wf d -> avail d < Z.of_nat n ->
-  (exists l, forall m, (n <= m)%nat -> ssh_loop m d acc = Done l) \/
-  (forall m, exists l, ssh_loop m d acc = OutOfFuel l /\ length l = (length acc + m)%nat).
+  exists l, forall m, (n <= m)%nat -> ssh_loop m d acc = Done l.
 Proof.
   induction n as [|n IH]; intros d acc Hwf Hlt.
   - pose proof (avail_nonneg d Hwf); lia.
   - pose proof (avail_nonneg d Hwf) as H0.
     destruct (Z.eq_dec (avail d) 0) as [Hz|Hnz].
-    + left; exists acc; intros m Hm. destruct m as [|m]; [lia|].
+    + exists acc; intros m Hm. destruct m as [|m]; [lia|].
       cbn [ssh_loop]. rewrite Hz. reflexivity.
-    + destruct (Z_lt_dec (avail d) 4) as [H3|H4].
-      * right; intros m. apply ssh_loop_stuck; [exact Hwf | lia].
-      * pose proof (pd_string_spec d Hwf) as Hs. cbv zeta in Hs.
-        destruct (pd_string d) as [d' s] eqn:Hp. cbn [fst] in Hs.
-        destruct Hs as (Hwf' & _ & Hge).
-        destruct (IH d' (s :: acc) Hwf' ltac:(lia)) as [(l & Hl) | Hr].
-        -- left; exists l; intros m Hm. destruct m as [|m]; [lia|].
-           cbn [ssh_loop]. destruct (avail d =? 0) eqn:E; [lia|]. rewrite Hp. apply Hl; lia.
-        -- right; intros m. destruct m as [|m].
-           ++ exists acc; cbn; split; [reflexivity | lia].
-           ++ destruct (Hr m) as (l & Hl & Hlen). exists l. cbn [ssh_loop].
-              destruct (avail d =? 0) eqn:E; [lia|]. rewrite Hp. split; [exact Hl|].
-              cbn [length] in Hlen; lia.
+    + pose proof (pd_string_spec d Hwf) as Hs. cbv zeta in Hs.
+      destruct (pd_string d) as [d' s] eqn:Hp. cbn [fst] in Hs.
+      destruct Hs as (Hwf' & Hshort & Hge).
+      destruct (d_err d') eqn:He.
+      * exists acc; intros m Hm. destruct m as [|m]; [lia|].
+        cbn [ssh_loop]. destruct (avail d =? 0) eqn:E; [reflexivity|]. rewrite Hp; cbv beta iota; rewrite He. reflexivity.
+      * assert (H4 : 4 <= avail d).
+        { destruct (Z_lt_dec (avail d) 4) as [H3|H3]; [|lia]. pose proof (Hshort H3) as Hx. congruence. }
+        destruct (IH d' (s :: acc) Hwf' ltac:(specialize (Hge H4); lia)) as (l & Hl).
+        exists l; intros m Hm. destruct m as [|m]; [lia|].
+        cbn [ssh_loop]. destruct (avail d =? 0) eqn:E; [lia|]. rewrite Hp; cbv beta iota; rewrite He. apply Hl; lia.
 Qed.
 
 Lemma new_decoder_avail p : avail (new_decoder p) = zlen p.
 Proof. unfold avail, new_decoder, dlen; cbn; lia. Qed.
 
-(* the fuel used by [ssh_request] decides: out of fuel there means out of fuel for ever,
-   with the slice one element longer per iteration *)
-Lemma ssh_fuel_decides p :
-  (exists l, forall m, (ssh_fuel p <= m)%nat -> ssh_loop m (new_decoder p) [] = Done l) \/
-  (forall m, exists l, ssh_loop m (new_decoder p) [] = OutOfFuel l /\ length l = m).
-Proof.
-  destruct (ssh_loop_decides (ssh_fuel p) (new_decoder p) [] (new_decoder_wf p)) as [H|H].
-  - rewrite new_decoder_avail. unfold ssh_fuel, zlen. lia.
-  - left; exact H.
-  - right; intros m. destruct (H m) as (l & Hl & Hlen). exists l; split; [exact Hl | cbn in Hlen; lia].
-Qed.
-
-Lemma ssh_request_fatal ty p s :
-  ssh_request ty p = RFatal s ->
-  s = F_SSH_LOOP /\ (ty = 1 \/ ty = 2)%N /\
-  forall m, exists l, ssh_loop m (new_decoder p) [] = OutOfFuel l /\ length l = m.
-Proof.
-  unfold ssh_request. destruct ((ty =? 1) || (ty =? 2))%N eqn:Et; [|discriminate].
-  destruct (ssh_loop (ssh_fuel p) (new_decoder p) []) eqn:El; [discriminate|].
-  intros H; inversion H; subst. split; [reflexivity|]. split; [lia|].
-  destruct (ssh_fuel_decides p) as [(l & Hl)|Hr]; [|exact Hr].
-  rewrite (Hl (ssh_fuel p)) in El by lia. discriminate.
-Qed.
-
-Lemma ssh_request_ok ty p :
-  ssh_request ty p = ROk ->
-  (ty = 1 \/ ty = 2)%N ->
+Lemma ssh_fuel_suffices p :
   exists l, forall m, (ssh_fuel p <= m)%nat -> ssh_loop m (new_decoder p) [] = Done l.
 Proof.
-  unfold ssh_request. intros H Ht.
-  replace ((ty =? 1) || (ty =? 2))%N with true in H by lia.
-  destruct (ssh_loop (ssh_fuel p) (new_decoder p) []) eqn:El; [|discriminate].
-  destruct (ssh_fuel_decides p) as [Hl|Hr]; [exact Hl|].
-  destruct (Hr (ssh_fuel p)) as (l & Hl & _). congruence.
+  apply ssh_loop_terminates; [apply new_decoder_wf|].
+  rewrite new_decoder_avail. unfold ssh_fuel, zlen. lia.
 Qed.
 
-Lemma ssh_request_range ty p : ssh_request ty p = ROk \/ ssh_request ty p = RFatal F_SSH_LOOP.
+Lemma ssh_request_ok ty p : ssh_request ty p = ROk.
 Proof.
-  unfold ssh_request. destruct ((ty =? 1) || (ty =? 2))%N; [|left; reflexivity].
-  destruct (ssh_loop _ _ _); [left|right]; reflexivity.
+  unfold ssh_request. destruct ((ty =? 1) || (ty =? 2))%N; [|reflexivity].
+  destruct (ssh_fuel_suffices p) as (l & Hl). rewrite (Hl (ssh_fuel p)) by lia. reflexivity.
 Qed.
+
+Lemma ssh_requests_ok rs : ssh_requests rs = ROk.
+Proof. induction rs as [|[ty p] r IH]; cbn [ssh_requests]; [reflexivity|]. rewrite ssh_request_ok. exact IH. Qed.
 
 (* ------------------------------------------------------------------ *)
-(* 3. tftp                                                              *)
+(* 3. tftp (after 9cc3ebb: every map access under s.mu)                 *)
 
-Lemma pop_thread_forall (P : list mop -> Prop) :
-  (forall o t, P (o :: t) -> P t) ->
-  forall ts i o ts', Forall P ts -> pop_thread i ts = Some (o, ts') ->
-  Forall P ts' /\ exists t, In (o :: t) ts.
-Proof.
-  intros Htail. induction ts as [|t r IH]; intros i o ts' Hall Hp; [destruct i; discriminate|].
-  inversion Hall as [|? ? Ht Hr]; subst.
-  destruct i as [|j]; cbn [pop_thread] in Hp.
-  - destruct t as [|o0 t0]; [discriminate|]. inversion Hp; subst.
-    split; [constructor; [eapply Htail; exact Ht | exact Hr] | exists t0; left; reflexivity].
-  - destruct (pop_thread j r) as [[o1 r1]|] eqn:E; [|discriminate]. inversion Hp; subst.
-    destruct (IH j o r1 Hr E) as (Hr1 & t1 & Hin).
-    split; [constructor; assumption | exists t1; right; exact Hin].
-Qed.
+Inductive mode := Out | In_ | InW.
 
-Lemma has_write_tail o t : has_write (o :: t) = false -> has_write t = false.
-Proof. unfold has_write; cbn [existsb]. destruct o; cbn; intros H; try exact H; discriminate. Qed.
-
-Lemma tftp_no_writer_safe_aux : forall sched ts,
-  Forall (fun t => has_write t = false) ts ->
-  trun (mkT ts false) sched <> TFatal.
-Proof.
-  induction sched as [|i r IH]; intros ts Hall; cbn [trun]; [discriminate|].
-  unfold tstep; cbn [t_threads t_writing].
-  destruct (pop_thread i ts) as [[o ts']|] eqn:Hp.
-  - destruct (pop_thread_forall (fun t => has_write t = false) has_write_tail ts i o ts' Hall Hp) as (Hall' & t & Hin).
-    destruct o; try (apply IH; exact Hall').
-    exfalso. rewrite Forall_forall in Hall. specialize (Hall _ Hin). unfold has_write in Hall; cbn in Hall. discriminate.
-  - apply IH; exact Hall.
-Qed.
-
-(* one connection at a time: a well-bracketed program never trips the check *)
-Fixpoint wb (t : list mop) : bool :=
+(* well-locked programs: map accesses only between Lock and Unlock, a write-begin is
+   followed by its write-end at once *)
+Fixpoint wlm (m : mode) (t : list mop) : bool :=
   match t with
-  | [] => true
-  | MWBegin :: MWEnd :: r => wb r
-  | MWBegin :: _ => false
-  | MWEnd :: _ => false
-  | _ :: r => wb r
+  | [] => match m with Out => true | _ => false end
+  | o :: r =>
+      match m, o with
+      | Out, MOther => wlm Out r
+      | Out, MLock => wlm In_ r
+      | In_, MOther => wlm In_ r
+      | In_, MRead => wlm In_ r
+      | In_, MWBegin => wlm InW r
+      | In_, MUnlock => wlm Out r
+      | InW, MWEnd => wlm In_ r
+      | _, _ => false
+      end
   end.
 
-Definition wb_open (t : list mop) : bool :=
-  match t with MWEnd :: r => wb r | _ => false end.
+Definition mode_of (s : tstate) (j : nat) : mode :=
+  match t_owner s with
+  | Some k => if (k =? j)%nat then (if t_writing s then InW else In_) else Out
+  | None => Out
+  end.
 
-Lemma tftp_single_safe_aux : forall (sched : list nat) (t : list mop) (w : bool),
-  (if w then wb_open t else wb t) = true ->
-  trun (mkT [t] w) sched <> TFatal.
+Definition tinv (s : tstate) : Prop :=
+  (forall j, wlm (mode_of s j) (nth j (t_threads s) []) = true) /\
+  (t_owner s = None -> t_writing s = false).
+
+Lemma nth_set_nth : forall (l : list (list mop)) i j x,
+  nth j (set_nth i x l) [] = if ((j =? i) && (i <? length l))%nat then x else nth j l [].
 Proof.
-  induction sched as [|i r IH]; intros t w Hw; cbn [trun]; [discriminate|].
-  unfold tstep; cbn [t_threads t_writing].
-  destruct i as [|j]; cbn [pop_thread].
-  - destruct t as [|o t']; [apply IH; exact Hw|].
-    destruct w.
-    + (* writing: the next operation is MWEnd *)
-      destruct o; cbn in Hw; try discriminate. apply (IH t' false). exact Hw.
-    + destruct o.
-      * apply (IH t' false). exact Hw.
-      * apply (IH t' false). exact Hw.
-      * apply (IH t' true). destruct t' as [|o2 t2]; cbn in Hw; [discriminate|].
-        destruct o2; try discriminate. cbn. exact Hw.
-      * cbn in Hw. discriminate.
-  - assert (Hn : pop_thread j (@nil (list mop)) = None) by (destruct j; reflexivity).
-    rewrite Hn. apply IH; exact Hw.
+  induction l as [|a l IH]; intros i j x.
+  - cbn. rewrite andb_false_r. destruct i; reflexivity.
+  - destruct i as [|i], j as [|j]; cbn [set_nth nth]; try reflexivity.
+    rewrite IH. reflexivity.
 Qed.
 
-Lemma wb_app a b : wb a = true -> wb b = true -> wb (a ++ b) = true.
+Lemma nth_nonnil_lt (l : list (list mop)) i o t : nth i l [] = o :: t -> (i <? length l)%nat = true.
 Proof.
-  revert b. induction a as [a IH] using (well_founded_induction (Wf_nat.well_founded_ltof _ (@length mop))).
-  intros b Ha Hb. destruct a as [|o a']; [exact Hb|].
-  destruct o; cbn [app].
-  - cbn in Ha |- *. apply IH; [unfold Wf_nat.ltof; cbn; lia | exact Ha | exact Hb].
-  - cbn in Ha |- *. apply IH; [unfold Wf_nat.ltof; cbn; lia | exact Ha | exact Hb].
-  - destruct a' as [|o2 a2]; [cbn in Ha; discriminate|].
-    destruct o2; cbn in Ha; try discriminate. cbn [app wb].
-    apply IH; [unfold Wf_nat.ltof; cbn; lia | exact Ha | exact Hb].
-  - cbn in Ha. discriminate.
+  intros H. apply Nat.ltb_lt. destruct (Nat.lt_ge_cases i (length l)) as [Hlt|Hge]; [exact Hlt|].
+  rewrite nth_overflow in H by exact Hge. discriminate.
 Qed.
 
-Lemma tftp_prog_wb k p h l : wb (tftp_prog k p h l) = true.
+Lemma tstep_inv s i : tinv s -> tstep s i <> TFatal /\ (forall s', tstep s i = TRun s' -> tinv s').
+Proof.
+  intros [Hall Hw]. unfold tstep.
+  destruct (nth i (t_threads s) []) as [|o t'] eqn:Hn.
+  { split; [discriminate|]. intros s' H; inversion H; subst; split; assumption. }
+  pose proof (nth_nonnil_lt _ _ _ _ Hn) as Hlt.
+  pose proof (Hall i) as Hi. rewrite Hn in Hi.
+  destruct s as [ts w ow]; cbn [t_threads t_writing t_owner] in *.
+  assert (Hupd : forall w' ow',
+            (forall j, j <> i -> mode_of (mkT ts w' ow') j = mode_of (mkT ts w ow) j) ->
+            wlm (mode_of (mkT ts w' ow') i) t' = true ->
+            (ow' = None -> w' = false) ->
+            tinv (mkT (set_nth i t' ts) w' ow')).
+  { intros w' ow' Hoth Hme Hcl. split; [|exact Hcl].
+    intros j. cbn [t_threads]. rewrite nth_set_nth, Hlt, andb_true_r.
+    destruct (Nat.eqb_spec j i) as [->|Hne].
+    - exact Hme.
+    - specialize (Hall j). specialize (Hoth j Hne).
+      unfold mode_of in *; cbn [t_owner t_writing] in *. rewrite Hoth. exact Hall. }
+  unfold mode_of in Hi; cbn [t_owner t_writing] in Hi.
+  destruct ow as [k|].
+  - destruct (Nat.eqb_spec k i) as [->|Hki].
+    + (* the owner moves *)
+      destruct w; destruct o; cbn in Hi; try discriminate.
+      * (* InW, MWEnd *)
+        split; [discriminate|]. intros s' H; inversion H; subst. apply Hupd.
+        -- intros j Hj. unfold mode_of; cbn. destruct (Nat.eqb_spec i j); [congruence|reflexivity].
+        -- unfold mode_of; cbn. rewrite Nat.eqb_refl. exact Hi.
+        -- discriminate.
+      * split; [discriminate|]. intros s' H; inversion H; subst. apply Hupd.
+        -- intros j Hj. reflexivity.
+        -- unfold mode_of; cbn. rewrite Nat.eqb_refl. exact Hi.
+        -- discriminate.
+      * split; [discriminate|]. intros s' H; inversion H; subst. apply Hupd.
+        -- intros j Hj. reflexivity.
+        -- unfold mode_of; cbn. rewrite Nat.eqb_refl. exact Hi.
+        -- discriminate.
+      * split; [discriminate|]. intros s' H; inversion H; subst. apply Hupd.
+        -- intros j Hj. unfold mode_of; cbn. destruct (Nat.eqb_spec i j); [congruence|reflexivity].
+        -- unfold mode_of; cbn. rewrite Nat.eqb_refl. exact Hi.
+        -- discriminate.
+      * split; [discriminate|]. intros s' H; inversion H; subst. apply Hupd.
+        -- intros j Hj. unfold mode_of; cbn. destruct (Nat.eqb_spec i j); [congruence|reflexivity].
+        -- unfold mode_of; cbn. exact Hi.
+        -- reflexivity.
+    + (* another goroutine holds the mutex: this one is outside *)
+      destruct o; cbn in Hi; try discriminate.
+      * split; [destruct w; discriminate|]. intros s' H; inversion H; subst. apply Hupd.
+        -- intros j Hj. reflexivity.
+        -- unfold mode_of; cbn. destruct (Nat.eqb_spec k i); [congruence|]. exact Hi.
+        -- discriminate.
+      * split; [discriminate|]. intros s' H; inversion H; subst. split; assumption.
+  - (* mutex free *)
+    specialize (Hw eq_refl). subst w.
+    destruct o; cbn in Hi; try discriminate.
+    * split; [discriminate|]. intros s' H; inversion H; subst. apply Hupd.
+      -- intros j Hj. reflexivity.
+      -- unfold mode_of; cbn. exact Hi.
+      -- reflexivity.
+    * split; [discriminate|]. intros s' H; inversion H; subst. apply Hupd.
+      -- intros j Hj. unfold mode_of; cbn. destruct (Nat.eqb_spec i j); [congruence|reflexivity].
+      -- unfold mode_of; cbn. rewrite Nat.eqb_refl. exact Hi.
+      -- discriminate.
+Qed.
+
+Lemma trun_inv : forall sched s, tinv s -> trun s sched <> TFatal.
+Proof.
+  induction sched as [|i r IH]; intros s Hs; cbn [trun]; [discriminate|].
+  destruct (tstep_inv s i Hs) as [Hnf Hnext].
+  destruct (tstep s i) as [s'|] eqn:E; [|congruence]. apply IH. apply Hnext. reflexivity.
+Qed.
+
+Lemma wlm_app : forall a m b, wlm m a = true -> wlm Out b = true -> wlm m (a ++ b) = true.
+Proof.
+  induction a as [|o a IH]; intros m b Ha Hb.
+  - destruct m; cbn in Ha; try discriminate. exact Hb.
+  - cbn [app]. destruct m, o; cbn in Ha |- *; try discriminate; apply IH; assumption.
+Qed.
+
+Lemma tftp_prog_wl k p h l : wlm Out (tftp_prog k p h l) = true.
 Proof. unfold tftp_prog. destruct (k =? 2)%N, (k =? 3)%N, p, h, l; reflexivity. Qed.
 
-Lemma tftp_thread_wb : forall dgs has, wb (tftp_thread has dgs) = true.
+Lemma tftp_thread_wl : forall dgs has, wlm Out (tftp_thread has dgs) = true.
 Proof.
   induction dgs as [|dg r IH]; intros has; cbn [tftp_thread]; [reflexivity|].
-  apply wb_app; [apply tftp_prog_wb | apply IH].
+  apply wlm_app; [apply tftp_prog_wl | apply IH].
+Qed.
+
+Lemma t_init_inv ts : Forall (fun t => wlm Out t = true) ts -> tinv (t_init ts).
+Proof.
+  intros H. split; [|reflexivity]. intros j. unfold mode_of, t_init; cbn.
+  destruct (Nat.lt_ge_cases j (length ts)) as [Hlt|Hge].
+  - rewrite Forall_forall in H. apply H. apply nth_In. exact Hlt.
+  - rewrite nth_overflow by exact Hge. reflexivity.
+Qed.
+
+Lemma tftp_no_schedule_fatal dgss sched :
+  trun (t_init (map (tftp_thread false) dgss)) sched <> TFatal.
+Proof.
+  apply trun_inv, t_init_inv. rewrite Forall_forall. intros t Ht.
+  apply in_map_iff in Ht as (dgs & <- & _). apply tftp_thread_wl.
 Qed.
 
 (* ------------------------------------------------------------------ *)
-(* 4. vnc                                                               *)
+(* 4. vnc (after 4aa01bd: pushFramesLoop recovers)                      *)
 
 Definition vp_state (p : vparse) : vstate :=
   match p with VEnd s _ => s | VFail s => s end.
 
-(* a dangerous state needs the pusher goroutine: without a FramebufferUpdateRequest
-   nothing a client sends can take the process down *)
 Definition danger_needs_pusher (s : vstate) : Prop := v_danger s = true -> v_pusher s = true.
 
 Lemma v_note_inv s : danger_needs_pusher s -> danger_needs_pusher (v_note s).
@@ -265,8 +290,6 @@ Proof.
   exact Hs.
 Qed.
 
-(* the format is only ever changed by SetPixelFormat: while the pusher is not running
-   and no SetPixelFormat/update request arrives, the state stays as it is *)
 Lemma vnc_parse_inv stream : danger_needs_pusher (vp_state (vnc_parse stream)).
 Proof.
   assert (Hi : danger_needs_pusher v_init) by (unfold danger_needs_pusher; cbn; discriminate).
@@ -292,8 +315,13 @@ Lemma push_fails_spec f :
   pf_tc f <> 0%N /\ (is_thousands f = true \/ pf_bpp f = 32 \/ pf_bpp f = 16 \/ pf_bpp f = 8)%N.
 Proof. unfold push_fails. destruct (is_thousands f); cbn; lia. Qed.
 
-Lemma default_format_safe : push_fails pf_default = false.
-Proof. reflexivity. Qed.
+(* whatever the order of pixel formats and update requests: the failf of the pusher
+   goroutine is recovered there, the connection ends, the process does not *)
+Lemma vnc_handle_ok stream : vnc_handle stream = ROk.
+Proof.
+  unfold vnc_handle, spawned_panic. destruct (vnc_verdict stream =? 0)%N; [reflexivity|].
+  change (goroutine_recovers 24 481) with true. reflexivity.
+Qed.
 
 (* ------------------------------------------------------------------ *)
 (* 5. counterstrike, adb                                                *)
@@ -334,4 +362,63 @@ Proof.
   unfold alloc_verdict, MEM_SURE, MAXALLOC, MEM_SAFE. intros H.
   destruct (L <? 0) eqn:E1; [lia|]. destruct (2 ^ 48 <? L) eqn:E2; [lia|].
   destruct (2 ^ 36 <? L) eqn:E3; [lia|]. destruct (2 ^ 26 <? L) eqn:E4; [lia|reflexivity].
+Qed.
+
+Lemma res_of_tlv_fatal_iff site t s :
+  res_of_tlv site t = Some (RFatal s) <-> in_oom_class t = true /\ s = F_ALLOC.
+Proof.
+  destruct t as [| |L]; cbn [res_of_tlv in_oom_class].
+  - split; [discriminate | intros [H _]; discriminate].
+  - split; [discriminate | intros [H _]; discriminate].
+  - unfold alloc_verdict, MEM_SURE, MAXALLOC, MEM_SAFE.
+    destruct (L <? 0) eqn:E1; [cbn; split; [discriminate | intros [H _]; lia]|].
+    destruct (2 ^ 48 <? L) eqn:E2; [cbn; split; [discriminate | intros [H _]; lia]|].
+    destruct (2 ^ 36 <? L) eqn:E3.
+    + cbn. split; [intros H; inversion H; split; [lia | reflexivity] | intros [_ ->]; reflexivity].
+    + destruct (2 ^ 26 <? L) eqn:E4; cbn; (split; [discriminate | intros [H _]; lia]).
+Qed.
+
+Lemma ldap_nest_fatal_iff seg rep s :
+  ldap_nest seg rep = Some (RFatal s) <-> STACK_SURE <= ldap_depth seg rep /\ s = F_STACK.
+Proof.
+  unfold ldap_nest. destruct (STACK_SURE <=? ldap_depth seg rep) eqn:E.
+  - split; [intros H; inversion H; split; [lia | reflexivity] | intros [_ ->]; reflexivity].
+  - destruct (ldap_depth seg rep <=? STACK_SAFE); (split; [discriminate | intros [H _]; lia]).
+Qed.
+
+(* ------------------------------------------------------------------ *)
+(* 7. the full statement (spelled out; Properties.v names it C01_full / C01_outside) *)
+
+Lemma full_refuted : ~ (
+  (forall ty p, ssh_request ty p = ROk) /\
+  (forall rs, ssh_requests rs = ROk) /\
+  (forall stream, vnc_handle stream = ROk) /\
+  (forall dgss sched, trun (t_init (map (tftp_thread false) dgss)) sched <> TFatal) /\
+  (forall dg, cs_handle dg = ROk \/ cs_handle dg = RPanic 1) /\
+  (forall segs, adb_handle segs = ROk \/ adb_handle segs = RPanic 2) /\
+  (forall dg s, snmp_first dg <> Some (RFatal s)) /\
+  (forall st s, ldap_first st <> Some (RFatal s)) /\
+  (forall seg rep s, ldap_nest seg rep <> Some (RFatal s))).
+Proof.
+  intros (_ & _ & _ & _ & _ & _ & H & _).
+  apply (H [48; 133; 64; 0; 0; 0; 0]%N F_ALLOC). vm_compute. reflexivity.
+Qed.
+
+Lemma outside_findings :
+  (forall ty p, ssh_request ty p = ROk) /\
+  (forall rs, ssh_requests rs = ROk) /\
+  (forall stream, vnc_handle stream = ROk) /\
+  (forall dgss sched, trun (t_init (map (tftp_thread false) dgss)) sched <> TFatal) /\
+  (forall dg, cs_handle dg = ROk \/ cs_handle dg = RPanic 1) /\
+  (forall segs, adb_handle segs = ROk \/ adb_handle segs = RPanic 2) /\
+  (forall dg s, in_oom_class (snmp_tlv dg) = false -> snmp_first dg <> Some (RFatal s)) /\
+  (forall st s, in_oom_class (ldap_tlv st) = false -> ldap_first st <> Some (RFatal s)) /\
+  (forall seg rep s, ldap_depth seg rep < STACK_SURE -> ldap_nest seg rep <> Some (RFatal s)).
+Proof.
+  split; [exact ssh_request_ok|]. split; [exact ssh_requests_ok|]. split; [exact vnc_handle_ok|].
+  split; [exact tftp_no_schedule_fatal|]. split; [exact cs_never_fatal|]. split; [exact adb_never_fatal|].
+  split; [|split].
+  - intros dg s Hc H. unfold snmp_first in H. apply res_of_tlv_fatal_iff in H as [H _]. congruence.
+  - intros st s Hc H. unfold ldap_first in H. apply res_of_tlv_fatal_iff in H as [H _]. congruence.
+  - intros seg rep s Hd H. apply ldap_nest_fatal_iff in H as [H _]. lia.
 Qed.
